@@ -1226,6 +1226,9 @@ func c29HasActive(c *an.Check, has, isFin *ssa.Function) {
 		c.OK("C29.R2", "HasActiveSwaps", pos, fmt.Sprintf("%d store contents (all lists of <= 3 swaps, each finished or active): result is exactly `some swap is not finished`", nOK))
 	}
 	c.AtLeast("C29.R2", "bounded store contents", len(scs), 15)
+	// every persisted swap is accounted for: a record that does not decode must
+	// surface as an error of ListAll, not be skipped
+	c29StoreDecodes(c)
 	// the test itself must leave the store alone
 	var writes []string
 	for _, ef := range w.Summary(has).Effects {
@@ -1264,4 +1267,208 @@ func c29IsAPI(fn *ssa.Function) bool {
 		return n != nil && n.Obj().Exported()
 	}
 	return true
+}
+
+// ---- every stored record is accounted for ---------------------------------------
+
+var c29DecodeLib = map[string]bool{
+	"func:encoding/json.Unmarshal": true, "func:(*encoding/json.Decoder).Decode": true,
+}
+
+// c29StoreDecodes: on the chain Store.ListAll -> (walker, callback, decode
+// helper) every decode failure must come back as a non-nil error: at each
+// fallible decode (json.Unmarshal / Decoder.Decode, an in-module helper built on
+// them, a library walker that is handed a callback containing one) the error is
+// tested or handed back, and no path from the error edge returns a nil error or
+// goes on to the next record.
+func c29StoreDecodes(c *an.Check) {
+	w := c.W
+	storeT := w.Named("swap", "Store")
+	if storeT == nil {
+		c.Anchor("swap.Store does not resolve")
+		return
+	}
+	si, _ := storeT.Underlying().(*types.Interface)
+	// ListAll implementations of production types
+	var roots []*ssa.Function
+	for _, rel := range c29SortedRels(w) {
+		if an.IsTestSupport(rel) {
+			continue
+		}
+		scope := w.ByRel[rel].Types.Scope()
+		for _, name := range scope.Names() {
+			tn, ok := scope.Lookup(name).(*types.TypeName)
+			if !ok {
+				continue
+			}
+			nt, ok := tn.Type().(*types.Named)
+			if !ok || si == nil || types.IsInterface(nt) {
+				continue
+			}
+			if !types.Implements(nt, si) && !types.Implements(types.NewPointer(nt), si) {
+				continue
+			}
+			if m := w.Method(nt, "ListAll"); m != nil && m.Blocks != nil {
+				roots = append(roots, m)
+			}
+		}
+	}
+	if !c.AtLeast("C29.R2", "production implementations of Store.ListAll", len(roots), 1) {
+		return
+	}
+	// the functions of the chain: static in-module callees and closures, three levels
+	chain := map[*ssa.Function]bool{}
+	var order []*ssa.Function
+	var visit func(f *ssa.Function, depth int)
+	visit = func(f *ssa.Function, depth int) {
+		if f == nil || f.Blocks == nil || chain[f] || depth > 3 || !w.InModule(f) || w.FnRel(f) == "log" {
+			return
+		}
+		chain[f] = true
+		order = append(order, f)
+		for _, a := range f.AnonFuncs {
+			visit(a, depth+1)
+		}
+		for _, call := range an.Calls(f) {
+			visit(call.Common().StaticCallee(), depth+1)
+		}
+	}
+	for _, r := range roots {
+		visit(r, 0)
+	}
+	// which chain functions can fail by a decode (transitively)?
+	canFail := map[*ssa.Function]bool{}
+	for changed := true; changed; {
+		changed = false
+		for _, f := range order {
+			if canFail[f] {
+				continue
+			}
+			for _, call := range an.Calls(f) {
+				g := call.Common().StaticCallee()
+				if c29DecodeLib[w.Info(call).Name] || (g != nil && canFail[g]) {
+					canFail[f], changed = true, true
+				}
+				for _, a := range call.Common().Args {
+					if mc, ok := a.(*ssa.MakeClosure); ok {
+						if cf, ok := mc.Fn.(*ssa.Function); ok && canFail[cf] {
+							canFail[f], changed = true, true
+						}
+					}
+				}
+			}
+		}
+	}
+	n := 0
+	seen := map[string]int{}
+	for _, f := range order {
+		errIdx := c29ErrIdx(f)
+		for _, call := range an.Calls(f) {
+			cc, ok := call.(*ssa.Call)
+			if !ok || an.ErrResultIndex(cc) < 0 {
+				continue
+			}
+			ci := w.Info(call)
+			kind := ""
+			switch {
+			case c29DecodeLib[ci.Name]:
+				kind = "decode"
+			case ci.Static != nil && canFail[ci.Static]:
+				kind = "decode helper"
+			default:
+				for _, a := range cc.Call.Args {
+					if mc, ok := a.(*ssa.MakeClosure); ok {
+						if cf, ok := mc.Fn.(*ssa.Function); ok && canFail[cf] {
+							kind = "walker with a decoding callback"
+						}
+					}
+				}
+			}
+			if kind == "" {
+				continue
+			}
+			n++
+			name := strings.TrimPrefix(strings.TrimPrefix(ci.Name, "func:"), "iface:")
+			cons := w.FuncName(f) + " " + kind + " " + name
+			seen[cons]++
+			if seen[cons] > 1 {
+				cons += fmt.Sprintf(" #%d", seen[cons])
+			}
+			pos := w.Pos(call.Pos())
+			var errV ssa.Value
+			if cc.Call.Signature().Results().Len() == 1 {
+				errV = cc
+			} else if vs := an.ResultValues(cc, an.ErrResultIndex(cc)); len(vs) > 0 {
+				errV = vs[0]
+			}
+			_, failE := an.OkEdges(cc)
+			switch {
+			case errV == nil || errV.Referrers() == nil || len(*errV.Referrers()) == 0:
+				c.Bad("C29.R2", cons, pos, "the error of this "+kind+" is discarded: a stored swap that does not decode is silently left out of ListAll, HasActiveSwaps does not see it and answers (false, nil)")
+			case len(failE) == 0:
+				// handed back as this function's error at every return?
+				propagated := errIdx >= 0
+				if propagated {
+					any := false
+					for _, r := range an.Returns(f) {
+						if r.Results[errIdx] == errV {
+							any = true
+						}
+					}
+					propagated = any
+				}
+				if propagated {
+					c.OK("C29.R2", cons, pos, "the error is handed back to the caller")
+				} else {
+					c.Unknown("C29.R2", cons, pos, "the error is neither compared with nil nor returned here; the rule does not follow it")
+				}
+			default:
+				var start []*ssa.BasicBlock
+				for _, e := range failE {
+					start = append(start, e.To())
+				}
+				reach := an.ReachBlocks(start, nil, map[*ssa.BasicBlock]bool{cc.Block(): true})
+				verdict, detail := "ok", ""
+				if reach[cc.Block()] {
+					verdict, detail = "bad", "the error edge leads back to the decode of the next record (log-and-continue)"
+				}
+				delete(reach, cc.Block())
+				for _, r := range an.Returns(f) {
+					if !reach[r.Block()] || verdict == "bad" {
+						continue
+					}
+					if errIdx < 0 {
+						verdict, detail = "unknown", "the function has no error result"
+						continue
+					}
+					switch c29NonNilErr(w, r.Results[errIdx], errV, 0) {
+					case "no":
+						verdict, detail = "bad", "the error edge reaches the return at "+w.Pos(r.Pos())+", which yields a nil error (log-and-skip)"
+					case "unknown":
+						if verdict == "ok" {
+							verdict, detail = "unknown", "cannot prove that the return at "+w.Pos(r.Pos())+" carries a non-nil error"
+						}
+					}
+				}
+				switch verdict {
+				case "ok":
+					c.OK("C29.R2", cons, pos, "a decode failure is returned as an error")
+				case "bad":
+					c.Bad("C29.R2", cons, pos, "a stored swap record that does not decode is swallowed: "+detail+". The record is left out of ListAll, so HasActiveSwaps answers (false, nil) for an unfinished swap it cannot read and SafeUpgrade stamps the new version while that swap is active")
+				default:
+					c.Unknown("C29.R2", cons, pos, detail)
+				}
+			}
+		}
+	}
+	c.AtLeast("C29.R2", "decode sites on the chain Store.ListAll -> record decode", n, 1)
+}
+
+func c29SortedRels(w *an.World) []string {
+	var out []string
+	for r := range w.ByRel {
+		out = append(out, r)
+	}
+	sort.Strings(out)
+	return out
 }
